@@ -30,8 +30,9 @@ package sim
 // Interface contracts of sim.TimeSteppingModel used by the runner (assumed: every
 // catalogued model satisfies them; C04 proves the wrappers' Run and ApplyParameters).
 //@ iface TimeSteppingModel.Description(x) returns (d)
-//@   trusted "Description is a pure accessor"
+//@   trusted "Description is a pure accessor: every call on one model returns lists of the same lengths"
 //@   assigns nothing
+//@   ensures len(d.Outputs) == x.g_nOutputs && len(d.States) == x.g_nStates && len(d.Inputs) == x.g_nInputs
 //@ iface TimeSteppingModel.ApplyParameters(x, params)
 //@   trusted "ApplyParameters stores views of the parameter matrix in the model object only"
 //@   ndmodel locations
@@ -42,20 +43,46 @@ package sim
 //@   ndmodel locations
 //@   assigns nothing
 //@   fresh s
-//@   ensures s != nil && s.rank == 2 && s.dim(0) == n
+//@   ensures s != nil && s.rank == 2 && s.dim(0) == n && s.dim(1) >= x.g_nStates && s.root == s.ref && injective(s)
 
 //@ func (singleModel).Initialise(m) returns (err, model, inputs, states, warnings)
 //@   ndmodel locations
 //@   safety C17
 //@   assigns nothing
-//@   ensures [C17.model-and-states] implies(err.isnil, model != nil && states != nil)
+//@   ensures [C17.model-and-states] implies(err.isnil, model != nil && states != nil && states.rank == 2 && states.dim(0) == 1 && states.dim(1) >= model.g_nStates)
+//@   ensures [C17.run-preconditions] implies(err.isnil, inputs != nil && inputs.rank == 3 && inputs.dim(0) == 1 && inputs.dim(1) == model.g_nInputs && inputs.dim(2) >= 0 && inputs.root != states.root && inputs.root == inputs.ref && states.root == states.ref)
 //@   ensures [C17.inputs-allocated] implies(err.isnil, inputs != nil && inputs.rank == 3 && inputs.dim(0) == 1 && inputs.dim(1) == len(desc.Inputs))
 //@   ensures [C17.missing-input-is-zero] implies(err.isnil, forall(k, 0, len(desc.Inputs), implies(forall(q, 0, len(m.Inputs), m.Inputs[q].Name != desc.Inputs[k]), forall(t, 0, inputs.dim(2), inputs.elem(0, k, t) == 0))))
 //@   ensures [C17.supplied-input-row] implies(err.isnil, forall(k, 0, len(desc.Inputs), forall(q, 0, len(m.Inputs), implies(m.Inputs[q].Name == desc.Inputs[k] && m.Inputs[q].Values != nil && forall(p, 0, q, m.Inputs[p].Name != desc.Inputs[k]), len(m.Inputs[q].Values) == inputs.dim(2) && forall(t, 0, inputs.dim(2), inputs.elem(0, k, t) == m.Inputs[q].Values[t])))))
+//@   callsite uniformParameters [C17.parameter-values] arg1 == 1 && len(arg0) == len(desc.Parameters) && forall(k, 0, len(desc.Parameters), (exists(q, 0, len(m.Parameters), m.Parameters[q].Name == desc.Parameters[k].Name && forall(p, 0, q, m.Parameters[p].Name != desc.Parameters[k].Name) && arg0[k] == m.Parameters[q].Value) || (forall(q, 0, len(m.Parameters), m.Parameters[q].Name != desc.Parameters[k].Name) && arg0[k] == desc.Parameters[k].Default)))
 //@   loop 0 invariant -1 <= rangeindex && rangeindex < len(desc.Parameters) && len(params) == len(desc.Parameters)
+//@   loop 0 invariant forall(k, 0, rangeindex + 1, (exists(q, 0, len(m.Parameters), m.Parameters[q].Name == desc.Parameters[k].Name && forall(p, 0, q, m.Parameters[p].Name != desc.Parameters[k].Name) && params[k] == m.Parameters[q].Value) || (forall(q, 0, len(m.Parameters), m.Parameters[q].Name != desc.Parameters[k].Name) && params[k] == desc.Parameters[k].Default)))
 //@   loop 1 invariant -1 <= rangeindex && rangeindex < len(desc.Inputs)
-//@   loop 1 invariant implies(inputs != nil, inputs.rank == 3 && inputs.dim(0) == 1 && inputs.dim(1) == len(desc.Inputs) && inputs.root == inputs.ref && injective(inputs))
+//@   loop 1 invariant implies(inputs != nil, inputs.rank == 3 && inputs.dim(0) == 1 && inputs.dim(1) == len(desc.Inputs) && inputs.root == inputs.ref && injective(inputs) && inputs.ref != states.ref && inputs.dim(2) >= 0)
 //@   loop 1 invariant implies(inputs == nil, forall(k, 0, rangeindex + 1, forall(q, 0, len(m.Inputs), !(m.Inputs[q].Name == desc.Inputs[k] && m.Inputs[q].Values != nil && forall(p, 0, q, m.Inputs[p].Name != desc.Inputs[k])))))
 //@   loop 1 invariant implies(inputs != nil, forall(k, rangeindex + 1, len(desc.Inputs), forall(t, 0, inputs.dim(2), inputs.elem(0, k, t) == 0)))
 //@   loop 1 invariant implies(inputs != nil, forall(k, 0, rangeindex + 1, implies(forall(q, 0, len(m.Inputs), m.Inputs[q].Name != desc.Inputs[k]), forall(t, 0, inputs.dim(2), inputs.elem(0, k, t) == 0))))
 //@   loop 1 invariant implies(inputs != nil, forall(k, 0, rangeindex + 1, forall(q, 0, len(m.Inputs), implies(m.Inputs[q].Name == desc.Inputs[k] && m.Inputs[q].Values != nil && forall(p, 0, q, m.Inputs[p].Name != desc.Inputs[k]), len(m.Inputs[q].Values) == inputs.dim(2) && forall(t, 0, inputs.dim(2), inputs.elem(0, k, t) == m.Inputs[q].Values[t])))))
+
+//@ iface TimeSteppingModel.Run(x, inputs, states, outputs)
+//@   trusted "Run of a catalogued model: proved per wrapper under C04 from these preconditions"
+//@   ndmodel locations
+//@   requires inputs != nil && states != nil && outputs != nil && inputs.rank == 3 && states.rank == 2 && outputs.rank == 3
+//@   requires inputs.dim(0) >= 1 && outputs.dim(0) >= states.dim(0) && outputs.dim(2) >= inputs.dim(2)
+//@   requires inputs.root != states.root && inputs.root != outputs.root && states.root != outputs.root
+//@   assigns nothing
+
+//@ func RunSingleModelJSON(r, w, splitOutputs)
+//@   ndmodel locations
+//@   safety C17
+//@   assigns nothing
+//@   loop 0 invariant -1 <= rangeindex && rangeindex < len(warnings)
+
+//@ func encodeResults(w, runLogs, results, description, splitOutputs)
+//@   ndmodel locations
+//@   safety C17
+//@   requires implies(results.Outputs != nil, results.Outputs.rank == 3 && results.Outputs.dim(0) == 1 && results.Outputs.dim(1) >= len(description.Outputs) && results.Outputs.dim(2) >= 0)
+//@   requires implies(results.States != nil, results.States.rank == 2 && results.States.dim(0) == 1 && results.States.dim(1) >= len(description.States))
+//@   assigns nothing
+//@   loop 0 invariant -1 <= rangeindex && rangeindex < len(description.Outputs)
+//@   loop 1 invariant -1 <= rangeindex && rangeindex < len(description.States)
